@@ -52,6 +52,22 @@ def render(c, cast):
         body = "type P struct { .X: %s? };\nfn f(s: %s) {\n    let p: P = { .X = %s };\n}\n" % (T, S, v)
     elif pos == "optassign":
         body = "fn f(s: %s, t0: %s) {\n    let t: %s? = t0;\n    t = %s;\n}\n" % (S, T, T, v)
+    elif pos == "ret_after_lit":       # a function literal with another return type earlier in the same body
+        body = ("fn f(s: %s) -> %s {\n    let id := fn(v: %s) -> %s {\n        return v;\n    };\n    let k: %s = id(s);\n    return %s;\n}\n"
+                % (S, T, S, S, S, v))
+    elif pos == "ret_in_lit_after_lit":  # the same one level down: an inner literal before the outer literal's return
+        body = ("fn f(s: %s) {\n    let outer := fn(w: %s) -> %s {\n        let inner := fn(v: %s) -> %s {\n            return v;\n        };\n"
+                "        let s: %s = inner(w);\n        return %s;\n    };\n}\n" % (S, S, T, S, S, S, v))
+    elif pos == "methodret":
+        body = "type P struct { .X: i32 };\nfn (p: P) m(s: %s) -> %s {\n    return %s;\n}\n" % (S, T, v)
+    elif pos == "branchret":
+        body = "fn f(s: %s, t0: %s, c: bool) -> %s {\n    if c {\n        return %s;\n    }\n    return t0;\n}\n" % (S, T, T, v)
+    elif pos == "closurearg":
+        body = "fn f(s: %s) {\n    let g := fn(t: %s) { };\n    g(%s);\n}\n" % (S, T, v)
+    elif pos == "append":
+        body = "fn f(s: %s) {\n    let a: []%s = [];\n    append(&'a, %s);\n}\n" % (S, T, v)
+    elif pos == "elemassign":
+        body = "fn f(s: %s, t0: %s) {\n    let a: []%s = [t0];\n    a[0] = %s;\n}\n" % (S, T, T, v)
     elif pos == "global":
         body = "fn src() -> %s {\n    let z: %s = %s;\n    return z;\n}\nfn f() {\n    let s: %s = src();\n    let t: %s = %s;\n}\n" % (
             S, S, zero(S), S, T, v)
